@@ -362,3 +362,56 @@ Theorem C16_histz_example :
 Proof. exact exz_restrict_fresh. Qed.
 Print Assumptions C16_histz_example.
 
+
+(** ** ALL histories, MTBDD kind (HISTz part M, Mgr/HistoryM.v): add_vars in any state of any history never
+    changes the function denoted by an existing MTBDD handle *)
+From Coq Require Import Bool List NArith ZArith PArith FMapPositive.
+From OxiVerif Require Import DD.Sem DD.Build DD.Apply DD.ApplyProofs DD.ConfigApply Num.I64 DD.ApplyMtbdd DD.ApplyMtbddBase
+  DD.ApplyMtbddProofs DD.ApplyMtbddTop Mgr.HistoryExamples
+  Mgr.HistoryM Mgr.HistoryMBase Mgr.HistoryMProofs Mgr.HistoryMThms Mgr.HistoryMSpec Mgr.HistoryMTie Mgr.HistoryMExamples.
+
+Theorem C16_histm_add_vars_keeps_functions :
+  forall (gt : ref -> ref -> bool) (C : Type) (cget : C -> N -> list ref -> option ref)
+  (cadd : C -> N -> list ref -> ref -> C),
+  lossy cget cadd ->
+  forall cempty : C,
+  (forall (k : N) (a : list ref), cget cempty k a = None) ->
+  forall (st : hstate_m C) (k : nat) (st' : hstate_m C),
+  HInvM C cget st ->
+  hstep_m gt C cget cadd cempty st (MHAddVars k) = Some st' ->
+  HInvM C cget st' /\
+  nlevels (hm_s C st') = nlevels (hm_s C st) + k /\
+  s_nodes (hm_s C st') = s_nodes (hm_s C st) /\
+  s_terms (hm_s C st') = s_terms (hm_s C st) /\
+  s_handles (hm_s C st') = s_handles (hm_s C st) /\
+  (forall v : nat, v < nlevels (hm_s C st) -> nth_error (s_v2l (hm_s C st')) v = nth_error (s_v2l (hm_s C st)) v) /\
+  (forall i : nat, i < k -> nth_error (s_v2l (hm_s C st')) (nlevels (hm_s C st) + i) = Some (nlevels (hm_s C st) + i)) /\
+  (forall r : ref,
+  ref_ok (hm_s C st) r ->
+  ref_ok (hm_s C st') r /\
+  (forall a a' : nat -> bool,
+  (forall v : nat, v < nlevels (hm_s C st) -> a v = a' v) -> mfun_of (hm_s C st') r a = mfun_of (hm_s C st) r a')).
+Proof. exact histm_add_vars. Qed.
+Print Assumptions C16_histm_add_vars_keeps_functions.
+
+(* along any history, however many variables are added meanwhile *)
+Theorem C16_histm_handle_function_fixed :
+  forall (gt : ref -> ref -> bool) (C : Type) (cget : C -> N -> list ref -> option ref)
+  (cadd : C -> N -> list ref -> ref -> C),
+  lossy cget cadd ->
+  forall cempty : C,
+  (forall (k : N) (a : list ref), cget cempty k a = None) ->
+  forall (ops : list mhop) (st st' : hstate_m C),
+  HInvM C cget st ->
+  mhops_pre gt C cget cadd cempty st ops ->
+  hrun_m gt C cget cadd cempty st ops = Some st' ->
+  forall (x : N) (e : edge),
+  (forall o : mhop, In o ops -> mhdst o <> Some x) ->
+  hget (s_handles (hm_s C st)) x = Some e ->
+  hget (s_handles (hm_s C st')) x = Some e /\
+  (forall a a' : nat -> bool,
+  (forall v : nat, v < nlevels (hm_s C st) -> a v = a' v) ->
+  mfun_of (hm_s C st') (eref e) a = mfun_of (hm_s C st) (eref e) a').
+Proof. exact histm_handle_function_fixed. Qed.
+Print Assumptions C16_histm_handle_function_fixed.
+
